@@ -530,6 +530,8 @@ def generate(rng, tier):
         if c["kind"] == "trip" and "path_form" not in c and not c.get("expect") and size_of(c["content"]) <= MB \
                 and rng.random() < 0.2:
             c["path_form"] = {"play": rng.choice(forms), "rec": rng.choice(forms), "holder": rng.choice(forms)}
+    # 14. (round 7) the KIND of the intercepted file and the FILESYSTEM of the replayed path: implementation only
+    env_cases = env_stream(rng, quick)
     # heavy trips first, then dealt round-robin so that every Coq shard gets its share of the long byte strings
     heavy = lambda c: sum(size_of(x) for x in c["contents"]) if c["kind"] == "seq" else \
         sum(size_of(st["content"]) for st in c["steps"]) if c["kind"] == "hist" else size_of(c["content"])
@@ -546,6 +548,27 @@ def generate(rng, tier):
         while len(b) < per and rest:
             b.append(rest.pop())
     out = [c for b in buckets for c in b] + rest
+    return out + env_cases
+
+
+def env_stream(rng, quick):
+    """Files whose reported size says nothing about their content (pseudo files of procfs: st_size 0; named pipes fed by a
+    producer thread: st_size 0, content arrives while it is read) as intercepted input and output files, and replayed
+    paths on ANOTHER filesystem than the default temporary directory (the replay path on /dev/shm, or the temporary
+    directory moved there) - next to the regular-file / same-filesystem combination as a control.  The bytes the file
+    delivered are what the replay restores; a machine without procfs / with one writable filesystem skips those cases."""
+    out = []
+    contents = [{"hex": b"pipe content\n".hex()}, {"hex": ""}, {"hex": bytes(range(256)).hex()},
+                {"sha": 77, "n": 70000}, {"hex": PLACEHOLDER.hex() if isinstance(PLACEHOLDER, bytes) else PLACEHOLDER.encode().hex()}]
+    k = 0
+    for source in ("regular", "pseudo", "fifo"):
+        for replay_fs, tmpdir in (("same", "default"), ("other", "default"), ("same", "other"), ("other", "other")):
+            for rep in range(1 if quick else 3):
+                k += 1
+                out.append(dict(kind="env", source=source, pseudo=["/proc/version", "/proc/filesystems", "/proc/self/cmdline"][k % 3],
+                                replay_fs=replay_fs, tmpdir=tmpdir, cassette=["mem", "file", "s3"][k % 3],
+                                in_mode=["pos", "kw"][k % 2], content=contents[k % len(contents)],
+                                out_content=contents[(k + 2) % len(contents)], tag="env"))
     return out
 
 
@@ -664,6 +687,8 @@ def model_file(spec, lim, pool):
 
 
 def to_gallina(case, obs):
+    if case["kind"] == "env":
+        return None           # implementation only: file kinds and mounts are outside the model (bytes in, bytes out)
     if "driver_exception" in obs:
         return "CPath 0%Z [] [] [] (Ans (AOther true))"       # a driver failure is a mismatch (get_path raises IndexError)
     k = case["kind"]
@@ -785,10 +810,36 @@ def explain(case, obs):
 
 
 # ---------------------------------------------------------------------------------------------- direct predicate
+def direct_env(case, obs):
+    fails = []
+    if obs.get("status") == "skipped":
+        return fails
+    what = "%s file as intercepted input, replayed path on %s filesystem as the temporary directory%s" % (
+        case["source"] if case["source"] != "pseudo" else "pseudo (%s, st_size 0)" % case["pseudo"],
+        "the same" if (case["replay_fs"] == "other") == (case["tmpdir"] == "other") else "ANOTHER",
+        " (temporary directory moved)" if case["tmpdir"] == "other" else "")
+    if obs.get("status") != "ok":
+        fails.append(("input-not-restored" if obs.get("status") == "replay-raises" and not obs.get("restored")
+                      else "trip-failed", "%s: %s %s %s" % (what, obs.get("status"), obs.get("replay_raises"), obs.get("cause"))))
+        return fails
+    if obs.get("restored") is None:
+        fails.append(("input-not-restored", "%s: no file at the path of the replayed call" % what))
+    elif obs.get("restored") != obs.get("delivered_in"):
+        fails.append(("input-bytes-differ", "%s: the file delivered %s, the replay restored %s" %
+                      (what, str(obs.get("delivered_in"))[:80], str(obs.get("restored"))[:80])))
+    for which in ("holder_rec", "holder_play"):
+        if obs.get(which) != obs.get("delivered_out"):
+            fails.append(("output-bytes-differ:" + which[7:], "%s: the output file delivered %s, the holder has %s" %
+                          (what, str(obs.get("delivered_out"))[:80], str(obs.get(which))[:80])))
+    return fails
+
+
 def direct(case, obs):
     if "driver_exception" in obs:
         return [("driver", obs["driver_exception"])]
     k = case["kind"]
+    if k == "env":
+        return direct_env(case, obs)
     fails = []
     if k == "b64":
         content = expand(case["content"])
@@ -933,6 +984,10 @@ def direct(case, obs):
 def features(case):
     k = case["kind"]
     f = {"kind:" + k}
+    if k == "env":
+        f |= {"intercepted-file-kind:" + case["source"], "cassette:" + case["cassette"],
+              "replay-path-filesystem:%s,tmpdir:%s" % (case["replay_fs"], case["tmpdir"])}
+        return f
     if k == "trip":
         lim = case["limit"]
         f.add("cassette:" + case["cassette"])
@@ -1009,7 +1064,7 @@ def features(case):
 
 def nontrivial(case):
     k = case["kind"]
-    if k in ("trip", "seq", "hist"):
+    if k in ("trip", "seq", "hist", "env"):
         return True
     if k == "above":
         return case["tag"] in ("edge-1", "edge+0", "edge+1", "huge")
@@ -1019,6 +1074,12 @@ def nontrivial(case):
 
 
 def shrink_candidates(case):
+    if case["kind"] == "env":
+        if case["cassette"] != "mem":
+            yield dict(case, cassette="mem")
+        if case["tmpdir"] == "other" and case["replay_fs"] == "other":
+            yield dict(case, tmpdir="default")
+        return
     if case["kind"] == "seq":
         if case["cassette"] != "mem":
             yield dict(case, cassette="mem")
@@ -1073,7 +1134,7 @@ def search_harder(rng, bad_cases):
 
 MANIFEST = dict(
     design_ref='6/C20',
-    text='Coq theorems for every byte string, path, way of passing the path (keyword / position), file-system and quoted-printable oracle: record -> cassette -> replay writes exactly the recorded bytes at the path of the REPLAYED call (input handler) / yields a holder with exactly those bytes (output handler), also when the content is the placeholder text; above the limit the placeholder is recorded and the file is never opened; the size test is the exact rational comparison size > limit*2^20 with the three boundary corollaries and int(float(env)) for the environment variable; a concrete RFC 4648 base64 codec with b64dec(b64enc b) = b, alphabet and length laws. Model tied to /repo on every run: the real handlers are driven end to end through the real TapeRecorder and the three real cassettes (in-memory, file, S3 over a fake bucket) on contents {empty, all 256 byte values, newlines, placeholder and near-placeholder texts, random binary, multi-MB, and 48 contents that are themselves valid encodings (deflated / archived blobs at several levels and framings incl. truncated, bad-checksum and concatenated streams, base64 family and other transfer encodings, json / jsonpickle-looking / serialized-envelope texts, pickles, byte-order marks) - the bytes come back as recorded whatever they spell} x sizes limit-1/limit/limit+1 x explicit float / int / environment limits x keyword / position x static / instance, and at unit level (base64 text, size check, path lookup); Coq compares with the model by vm_compute; the direct predicate (restored bytes == original at the replayed path, holder content == original, above-limit files never opened and recorded as the placeholder) searches for a failing input. Histories on one path (theorems C20_history_input/_output: the k-th recording of a path is made of what the file holds at the k-th interception): the same recorded path intercepted repeatedly - across recordings and 2-5 times inside one operation, by input and output handlers in every order - with the file rewritten in between (same length, modification time stamped / kept / clock, in place / replaced). Path forms: trips and sequences also run with the scratch directory as current directory and the recorded / replayed / holder.to_file paths written as a bare file name, ./name, sub/name, sub/../name, an absolute path in a sub-directory (replayed form x positional / keyword x cassette deterministically in the quick tier) and nosuch/name (absent directory: correspondence only) - a path is an opaque name for the model, the bytes land at the file the replayed call names however it is written.',
+    text='Coq theorems for every byte string, path, way of passing the path (keyword / position), file-system and quoted-printable oracle: record -> cassette -> replay writes exactly the recorded bytes at the path of the REPLAYED call (input handler) / yields a holder with exactly those bytes (output handler), also when the content is the placeholder text; above the limit the placeholder is recorded and the file is never opened; the size test is the exact rational comparison size > limit*2^20 with the three boundary corollaries and int(float(env)) for the environment variable; a concrete RFC 4648 base64 codec with b64dec(b64enc b) = b, alphabet and length laws. Model tied to /repo on every run: the real handlers are driven end to end through the real TapeRecorder and the three real cassettes (in-memory, file, S3 over a fake bucket) on contents {empty, all 256 byte values, newlines, placeholder and near-placeholder texts, random binary, multi-MB, and 48 contents that are themselves valid encodings (deflated / archived blobs at several levels and framings incl. truncated, bad-checksum and concatenated streams, base64 family and other transfer encodings, json / jsonpickle-looking / serialized-envelope texts, pickles, byte-order marks) - the bytes come back as recorded whatever they spell} x sizes limit-1/limit/limit+1 x explicit float / int / environment limits x keyword / position x static / instance, and at unit level (base64 text, size check, path lookup); Coq compares with the model by vm_compute; the direct predicate (restored bytes == original at the replayed path, holder content == original, above-limit files never opened and recorded as the placeholder) searches for a failing input. Histories on one path (theorems C20_history_input/_output: the k-th recording of a path is made of what the file holds at the k-th interception): the same recorded path intercepted repeatedly - across recordings and 2-5 times inside one operation, by input and output handlers in every order - with the file rewritten in between (same length, modification time stamped / kept / clock, in place / replaced). Path forms: trips and sequences also run with the scratch directory as current directory and the recorded / replayed / holder.to_file paths written as a bare file name, ./name, sub/name, sub/../name, an absolute path in a sub-directory (replayed form x positional / keyword x cassette deterministically in the quick tier) and nosuch/name (absent directory: correspondence only) - a path is an opaque name for the model, the bytes land at the file the replayed call names however it is written. Environment trips (implementation only, direct predicate): the intercepted file is also a procfs pseudo file (st_size 0) or a named pipe fed by a producer thread - what reading the file delivers is what is restored, whatever size the file system reports - and the replayed path lies on another mount than the default temporary directory (/dev/shm, in either direction); machines without procfs / a second writable filesystem skip those cases.',
     note='Trusted: Coq kernel + vm_compute; hand-written model; correspondence harness (fake bucket behind the real S3BasicFacade, journalling wrapper around open, substituted os.path.getsize for sizes that cannot be materialised); jsonpickle\'s coding of bytes is an oracle (model A) exercised end to end; float comparison exact for sizes < 2^53.',
     technique='Coq proof (lia + finite sweep over the 64 base64 digits, exact rationals for the limit) + model/implementation correspondence by vm_compute + direct predicate end to end',
 )
